@@ -47,6 +47,15 @@ func vCbResult() error {
 
 // vJudgeOk: ok was delivered; the snapshot the watcher read last must justify it.
 func vJudgeOk(c *vChain, required, start, window uint32) {
+	// C01's view of the same report: the taker validates and pays on "confirmed", so the report must rest
+	// on a snapshot the watcher read completely in this round, showing the required depth on it
+	depthOK := c.haveH && c.haveTip && !c.outErr
+	if depthOK && c.out != nil {
+		depthOK = c.out.BestBlockHash == c.tipHash && c.out.Confirmations >= required
+	} else if depthOK {
+		depthOK = c.outNil && c.found && c.foundAt <= uint32(c.H) && uint64(uint32(c.H))-uint64(c.foundAt)+1 >= uint64(required)
+	}
+	zzverif.Assert(depthOK, "C01.confirmed_report_rests_on_fresh_snapshot_with_required_depth")
 	// transient errors / unknown height never produce ok
 	zzverif.Assert(c.haveH && c.haveTip && !c.outErr, "C20.rpc_ok_needs_complete_snapshot")
 	if !(c.haveH && c.haveTip) {
@@ -116,12 +125,14 @@ func vConfEntryOn(c *vChain, n int, required, start, window uint32) {
 // notifications (3 in the _T_ variant), range scan <= 3 blocks, all 32-bit
 // start/window/required/heights (wrap included), confirmations arbitrary uint32, hashes and
 // raw transactions arbitrary strings.
+// zzverif:also C01
 func H_C20_rpcConf_stale() {
 	vConfEntry(vStaleNotif, 2, zzverif.U32("required"), zzverif.U32("start"), zzverif.U32("window"))
 }
 
 // H_C20_rpcConf_fresh: same, but every notification equals the height the watcher reads
 // next (no block arrives between notification and handling).  Bounds as above.
+// zzverif:also C01
 func H_C20_rpcConf_fresh() {
 	vConfEntry(vFreshNotif, 2, zzverif.U32("required"), zzverif.U32("start"), zzverif.U32("window"))
 }
@@ -129,6 +140,7 @@ func H_C20_rpcConf_fresh() {
 // H_C20_rpcConf_bitcoinStale: the production parameters of the Bitcoin watcher
 // (requiredConfs 3, window 504) with realistic heights: start < 2^24, getblockcount < 2^31,
 // one stale notification (<= the height read).  Bounds: 1 notification, scan <= 3 blocks.
+// zzverif:also C01
 func H_C20_rpcConf_bitcoinStale() {
 	start := zzverif.U32("start")
 	zzverif.Assume(start < 1<<24)
